@@ -457,6 +457,8 @@ class MProcess(QOperation):
 
         new_hss = []
         for hs in hss:
+            # hs may be a view of the caller's var: do not modify it in place
+            hs = hs.copy()
             hs[0] -= vec / len(hss)
             new_hss.append(hs)
 
